@@ -229,3 +229,48 @@ PROPS["C02"] = dict(
              timeout=dict(quick=400, thorough=2400), shrinktime="90s"),
     ],
 )
+
+PROPS["C11"] = dict(
+    level="exploration",
+    manifest=dict(
+        text=("Scripted sessions on 1-3 complete in-process broker nodes with virtual connection deadlines: generated scripts mix connect (keep-alive "
+              "1..65535 s, optional will), subscribe/unsubscribe, publish, PINGREQ, idle periods of 0.05-0.9 (within) and 1.1-3 (beyond) times the "
+              "allowance at any point including right after CONNACK, and the termination causes DISCONNECT, connection loss, protocol error "
+              "(second CONNECT, reserved packet types) and failure of the hosting node. After EVERY step, at quiescence with all gossip delivered: "
+              "sessions that gave no cause are open, answered, listed everywhere and registered; ended sessions had their connection closed by the "
+              "broker, are listed nowhere, own no subscription anywhere, are gone from the registry and receive nothing published afterwards; every "
+              "listed subscription belongs to a listed session on the node it names."),
+        note=_L3_NOTE + " Keep-alive 0 is outside the domain (the decoder library turns it into 30). Displacement by a newer session is C12's subject.",
+        technique="stateful property-based testing of the running cluster against a session-lifecycle model (rapid generation + shrinking)",
+    ),
+    rule=("a case = node count, client count, step list. Non-trivial = a session that had subscribed ends by a cause other than DISCONNECT, or a "
+          "'within' idle longer than 3 s directly follows a CONNECT. Distinct = distinct case."),
+    assumptions=["idle steps are nudged >= 500 ms away from any session's allowance boundary", "all gossip is delivered before the state is judged",
+                 "node failure = NotifyGossipLeave on the survivors; the check waits (real time, up to 15 s) for the delayed record cleanup"],
+    runs=[
+        dict(name="regress", pkg="c11", run="TestRegress", timeout=300),
+        dict(name="random", pkg="c11", run="TestRandom", checks=dict(quick=640, thorough=12000), shards=16, timeout=dict(quick=400, thorough=2400), shrinktime="90s"),
+        dict(name="nodefail", pkg="c11", run="TestNodeFailure", checks=dict(quick=48, thorough=800), shards=16, timeout=dict(quick=400, thorough=2400), shrinktime="120s"),
+    ],
+)
+
+PROPS["C13"] = dict(
+    level="exploration",
+    manifest=dict(
+        text=("A session with a generated will (topic, payload, QoS 0-2, retain) on one of 1-3 in-process nodes and 1-4 watchers with matching / "
+              "non-matching filters in the same or another mount point, placed on any node; termination by connection loss, keep-alive expiry, "
+              "protocol error, DISCONNECT, hosting-node failure, and the two-step endings DISCONNECT-then-loss / DISCONNECT-then-node-failure / "
+              "loss-then-node-failure. Oracle: the multiset of PUBLISH packets read by every client equals the model's (the will once per matching "
+              "subscription of the same mount point, un-prefixed topic, never after DISCONNECT, never twice, never to the dying session itself), "
+              "including the retained copy for a later subscriber."),
+        note=_L3_NOTE,
+        technique="stateful property-based testing of the running cluster with an expected-delivery multiset oracle",
+    ),
+    rule=("a case = placement + will + watcher subscriptions + cause. Non-trivial = hosting-node failure, or watchers on >= 2 nodes. Distinct = distinct case."),
+    assumptions=["gossip fully delivered before the cause", "a retained will is expected to be replayed to a later subscriber like any retained publish"],
+    runs=[
+        dict(name="regress", pkg="c13", run="TestRegress", timeout=300),
+        dict(name="random", pkg="c13", run="TestRandom", checks=dict(quick=480, thorough=8000), shards=16, timeout=dict(quick=400, thorough=2400), shrinktime="90s"),
+        dict(name="nodefail", pkg="c13", run="TestNodeFailure", checks=dict(quick=48, thorough=800), shards=16, timeout=dict(quick=400, thorough=2400), shrinktime="120s"),
+    ],
+)
